@@ -266,7 +266,7 @@ class State:
                 out.append(v)
         return out
 
-    def kill_vars(self, vars_):
+    def kill_vars(self, vars_, keep_bounds=False):
         vars_ = list(vars_)
         if not vars_:
             return
@@ -276,7 +276,11 @@ class State:
                 # rewrite definitions through an equality before the variable disappears
                 if self.defs:
                     self._rewrite_defs(v, vs)
-                self.cons.eliminate(v, self.bounds_of(v))
+                if self.guards:
+                    self._rewrite_guards(v, vs)
+                self.cons.eliminate(v, self.bounds_of(v), keep_bounds)
+            elif self.guards:
+                self._rewrite_guards(v, vs)
         self.absorb_unary()
         if self.defs:
             dead = [k for k, d in self.defs.items() if k in vs or _def_mentions(d, vs)]
@@ -284,7 +288,13 @@ class State:
                 del self.defs[k]
 
     def absorb_unary(self):
-        """single-variable constraints produced by elimination become interval bounds"""
+        """single-variable constraints produced by elimination become interval bounds;
+        constraints implied by the intervals are dropped"""
+        for c in list(self.cons.le):
+            if len(c.terms) > 1:
+                hi = sup(c, self.bounds_of)
+                if hi is not None and hi <= -(1 << 40):
+                    self.cons.le.discard(c)
         un = [c for c in self.cons.le if len(c.terms) == 1]
         ue = [c for c in self.cons.eq if len(c.terms) == 1]
         if not un and not ue:
@@ -324,6 +334,49 @@ class State:
                 new[(var, value)] = frozenset(keep)
         self.guards = new
 
+    def _rewrite_guards(self, v, dying):
+        """before scalar v disappears, re-express guarded facts that mention it through an equality v = w + c"""
+        hit = False
+        for fs in self.guards.values():
+            for f in fs:
+                if (f[0] == "iv" and f[1] == v) or (f[0] in ("le", "eq") and v in f[1].terms):
+                    hit = True
+                    break
+            if hit:
+                break
+        if not hit:
+            return
+        repl = None
+        for e in self.cons.eq:
+            c = e.terms.get(v)
+            if c in (1, -1) and not any(x in dying for x in e.terms if x != v):
+                rest = LinForm({x: k for x, k in e.terms.items() if x != v}, e.const)
+                repl = (-rest) if c == 1 else rest
+                break
+        if repl is None:
+            leaf = self.leaf(v)
+            if leaf is not None and leaf.is_const():
+                repl = LinForm.constant(leaf.lo)
+        if repl is None:
+            return
+        sv = repl.single_var()
+        new = {}
+        for key, fs in self.guards.items():
+            out = []
+            for f in fs:
+                if f[0] == "iv" and f[1] == v:
+                    if sv is not None and sv[1] == 1:
+                        # v = w + k  ->  w in [lo-k, hi-k]
+                        out.append(("iv", sv[0], f[2] - sv[2], f[3] - sv[2]))
+                    continue
+                if f[0] in ("le", "eq") and v in f[1].terms:
+                    out.append((f[0], f[1].subst(v, repl)))
+                    continue
+                out.append(f)
+            if out:
+                new[key] = frozenset(out)
+        self.guards = new
+
     def _rewrite_defs(self, v, dying):
         users = [k for k, d in self.defs.items() if k not in dying and d[0] == "cmp" and (v in d[2].terms or v in d[3].terms)]
         if not users:
@@ -345,8 +398,7 @@ class State:
             d = self.defs[k]
             self.defs[k] = (d[0], d[1], d[2].subst(v, repl), d[3].subst(v, repl))
 
-    def kill_loc(self, cell, path=()):
-        self.kill_guards(cell, path)
+    def kill_loc(self, cell, path=(), whole=False):
         n = len(path)
         vs = set(self.vars_under(cell, path))
         for k, d in self.defs.items():
@@ -355,11 +407,21 @@ class State:
             for v in _def_vars(d):
                 if v[0] == cell and v[1][:n] == path:
                     vs.add(v)
-        self.kill_vars(vs)
+        if self.guards:
+            for fs in self.guards.values():
+                for f in fs:
+                    if f[0] == "iv":
+                        if f[1][0] == cell and f[1][1][:n] == path:
+                            vs.add(f[1])
+                    elif f[0] in ("le", "eq"):
+                        for v in f[1].terms:
+                            if v[0] == cell and v[1][:n] == path:
+                                vs.add(v)
+        self.kill_vars(vs, keep_bounds=(cell[0] == "H"))
+        self.kill_guards(cell, path, whole)
 
     def kill_cell(self, cell):
-        self.kill_guards(cell, (), True)
-        self.kill_loc(cell, ())
+        self.kill_loc(cell, (), True)
         self.cells.pop(cell, None)
 
     # -- constraint addition with bound propagation ------------------------------------
@@ -612,6 +674,20 @@ def _lost_facts(s, out, limit=60):
     return facts[:limit * 2]
 
 
+def _state_entails_fact(s, f):
+    if f[0] == "iv":
+        leaf = s.leaf(f[1])
+        return leaf is not None and f[2] <= leaf.lo and leaf.hi <= f[3]
+    if f[0] == "le":
+        return s.entails_le(f[1])
+    if f[0] == "eq":
+        return s.entails_eq(f[1])
+    if f[0] == "var":
+        v = get_at(s.cells.get(f[1][0], Top()), f[1][1])
+        return isinstance(v, Enum) and set(v.variants) <= set(f[2])
+    return False
+
+
 def join_guards(a, b, out):
     keys = set(a.guards) | set(b.guards)
     # new discriminating keys: enum nodes / bools on which the two states differ
@@ -664,6 +740,12 @@ def join_guards(a, b, out):
             sa = set(a.guards.get(key, ())) | set(lost_a)
             sb = set(b.guards.get(key, ())) | set(lost_b)
             fs = sa & sb
+            for f in sa - fs:
+                if _state_entails_fact(b, f):
+                    fs.add(f)
+            for f in sb - fs:
+                if _state_entails_fact(a, f):
+                    fs.add(f)
         if fs:
             res[key] = frozenset(fs)
     return res
